@@ -1,6 +1,8 @@
 import OtelVerif.Model.C17
 import OtelVerif.Lemmas.C17Split
 import OtelVerif.Lemmas.C17Shard
+import OtelVerif.Lemmas.C17Timeout
+import OtelVerif.Lemmas.C17Proc
 /-!
 # C17 — batch processor: conservation, size bound, metadata isolation, timely flush
 
@@ -344,6 +346,146 @@ theorem C17_timeout_partial {P β : Type} (o : BatchOps P) (flat : P → List β
   simp only [Shard.tick]
   split <;> rfl
 
+/-! ### the full timeout clause: per-item deadline, in virtual time -/
+
+theorem logs_fifo : Fifo logsBatch flatten := ⟨splitLogs_eq⟩
+theorem metrics_fifo : Fifo metricsBatch mflatten := ⟨splitMetrics_eq⟩
+
+/-- a history with its clock (`arr x` = the time item `x` arrived, `tEnd` = when shutdown drains the shard): an arrival
+never happens before the previous label and — with a timer — never after the pending deadline, a timer firing happens at
+its deadline: the shard goroutine takes the `select` case that is due before virtual time moves on.  (Real scheduling and
+timer latency are outside; everything else, in particular size-triggered partial sends, is inside.) -/
+def WellTimed {P β : Type} (o : BatchOps P) (c : Cfg) (flat : P → List β) (arr : β → Nat) (tEnd : Nat) :
+    Nat → Shard P → List (Label P) → Prop
+  | T, s, [] => T ≤ tEnd ∧ (hasTimer c = true → tEnd ≤ s.deadline)
+  | T, s, .arrive now p :: ls =>
+    T ≤ now ∧ (hasTimer c = true → now ≤ s.deadline) ∧ (∀ x ∈ flat p, arr x = now) ∧
+      WellTimed o c flat arr tEnd now (s.process o c now p).1 ls
+  | T, s, .tick :: ls => hasTimer c = true ∧ T ≤ s.deadline ∧ WellTimed o c flat arr tEnd s.deadline (s.tick o c).1 ls
+
+theorem flat_nil_of_cnt {P β : Type} (o : BatchOps P) (flat : P → List β) (hl : BatchLaws o flat) (s : Shard P)
+    (hs : s.ok o) (h0 : s.cnt = 0) : flat s.data = [] := by
+  apply List.eq_nil_of_length_eq_zero
+  rw [← hl.count_eq, ← hs, h0]
+
+theorem cnt_zero_of_no_timer {P : Type} (c : Cfg) (s : Shard P) (ht : hasTimer c = false) (hd : due c s = false) : s.cnt = 0 := by
+  simp only [due, ht, Bool.not_false, Bool.true_or, Bool.and_true, decide_eq_false_iff_not] at hd
+  omega
+
+theorem timeout_run {P β : Type} (o : BatchOps P) (flat : P → List β) (hl : BatchLaws o flat) (hf : Fifo o flat) (c : Cfg)
+    (hv : c.valid) (arr : β → Nat) (tEnd : Nat) :
+    ∀ (ls : List (Label P)) (s : Shard P) (T : Nat), s.inv o c →
+      (hasTimer c = true → (∀ x ∈ flat s.data, s.deadline ≤ arr x + c.timeout) ∧ s.deadline ≤ T + c.timeout) →
+      WellTimed o c flat arr tEnd T s ls →
+      ∀ e ∈ (Shard.run o c s ls).2 ++ ((Shard.run o c s ls).1.shutdown o c tEnd).2, ∀ x ∈ flat e.p, e.t ≤ arr x + c.timeout := by
+  intro ls
+  induction ls with
+  | nil =>
+    intro s T hi hti hw e he x hx
+    simp only [Shard.run, List.nil_append] at he
+    simp only [WellTimed] at hw
+    by_cases ht : hasTimer c = true
+    · -- shutdown sends what is pending, before its deadline
+      simp only [Shard.shutdown] at he
+      split at he
+      · simp only [List.mem_singleton] at he
+        subst he
+        have sp := send_spec o flat hl c tEnd s hi.1
+        have hx' : x ∈ flat s.data := sp.2.1.subset (List.mem_append.mpr (Or.inl hx))
+        have := (hti ht).1 x hx'
+        have := hw.2 ht
+        rw [sp.2.2.2.2.2.2.2]
+        omega
+      · simp at he
+    · have ht' : hasTimer c = false := by simpa using ht
+      have h0 := cnt_zero_of_no_timer c s ht' hi.2
+      simp [Shard.shutdown, h0] at he
+  | cons l ls ih =>
+    intro s T hi hti hw e he x hx
+    simp only [Shard.run, List.append_assoc] at he
+    cases l with
+    | arrive now p =>
+      simp only [WellTimed] at hw
+      obtain ⟨hT, hnow, hnew, hrest⟩ := hw
+      have ps := process_spec o flat hl c now s p hi.1
+      by_cases ht : hasTimer c = true
+      · have pt := process_timed o flat hl hf c hv arr now T s p hi (hti ht).1 (hti ht).2 hT (hnow ht) hnew
+        rcases List.mem_append.mp he with h | h
+        · exact pt.1 e h x hx
+        · exact ih (s.process o c now p).1 now ps.1 (fun _ => ⟨pt.2.1, pt.2.2.1⟩) hrest e h x hx
+      · have ht' : hasTimer c = false := by simpa using ht
+        rcases List.mem_append.mp he with h | h
+        · -- no timer: everything is sent at once, at its arrival time
+          have h0 := cnt_zero_of_no_timer c s ht' hi.2
+          have hnil := flat_nil_of_cnt o flat hl s hi.1 h0
+          have hx' : x ∈ flat s.data ++ flat p := by
+            apply ps.2.1.subset
+            apply List.mem_append.mpr; left
+            exact List.mem_flatMap.mpr ⟨e, h, hx⟩
+          rw [hnil, List.nil_append] at hx'
+          have := hnew x hx'
+          have := (ps.2.2.2.2 e h).2
+          omega
+        · exact ih (s.process o c now p).1 now ps.1 (fun h' => absurd h' ht) hrest e h x hx
+    | tick =>
+      simp only [WellTimed] at hw
+      obtain ⟨ht, hT, hrest⟩ := hw
+      have ts := tick_spec o flat hl c hv s hi
+      rcases List.mem_append.mp he with h | h
+      · have hx' : x ∈ flat s.data := by
+          apply ts.2.2.1.subset
+          apply List.mem_append.mpr; left
+          exact List.mem_flatMap.mpr ⟨e, h, hx⟩
+        have := (hti ht).1 x hx'
+        have := (ts.2.2.2.2.2 e h).2
+        omega
+      · refine ih (s.tick o c).1 s.deadline ts.1 ?_ hrest e h x hx
+        intro _
+        have hnil := flat_nil_of_cnt o flat hl _ ts.1.1 ts.2.1
+        refine ⟨by intro y hy; rw [hnil] at hy; simp at hy, ?_⟩
+        have : (s.tick o c).1.deadline = s.deadline + c.timeout := by
+          simp only [Shard.tick]; split <;> rfl
+        omega
+
+/-- **timeout** (full, virtual time): over every well-timed history of arrivals, size-triggered (also partial) sends, timer
+firings and the final shutdown, every item leaves no later than `timeout` after it arrived — for every validated
+configuration; without a timer (`timeout = 0` or `send_batch_size = 0`) it leaves at its arrival time -/
+theorem C17_timeout {P β : Type} (o : BatchOps P) (flat : P → List β) (hl : BatchLaws o flat) (hf : Fifo o flat) (c : Cfg)
+    (hv : c.valid) (arr : β → Nat) (key : Key) (T0 tEnd : Nat) (ls : List (Label P))
+    (hw : WellTimed o c flat arr tEnd T0 { key := key, data := o.empty, cnt := 0, deadline := T0 + c.timeout } ls) :
+    let s0 : Shard P := { key := key, data := o.empty, cnt := 0, deadline := T0 + c.timeout }
+    ∀ e ∈ (Shard.run o c s0 ls).2 ++ ((Shard.run o c s0 ls).1.shutdown o c tEnd).2, ∀ x ∈ flat e.p, e.t ≤ arr x + c.timeout := by
+  intro s0
+  have hi0 : s0.inv o c := ⟨by simp [s0, Shard.ok, hl.count_eq, hl.empty], by simp [s0, due]⟩
+  exact timeout_run o flat hl hf c hv arr tEnd ls s0 T0 hi0
+    (fun _ => ⟨by intro x hx; simp [s0, hl.empty] at hx, Nat.le_refl _⟩) hw
+
+/-- the instances for the three signals (traces use the logs model: same code up to renaming) -/
+theorem C17_timeout_logs (c : Cfg) (hv : c.valid) (arr : Ctx → Nat) (key : Key) (T0 tEnd : Nat) (ls : List (Label (List Res)))
+    (hw : WellTimed logsBatch c flatten arr tEnd T0 { key := key, data := [], cnt := 0, deadline := T0 + c.timeout } ls) :
+    ∀ e ∈ (Shard.run logsBatch c { key := key, data := [], cnt := 0, deadline := T0 + c.timeout } ls).2 ++
+        ((Shard.run logsBatch c { key := key, data := [], cnt := 0, deadline := T0 + c.timeout } ls).1.shutdown logsBatch c tEnd).2,
+      ∀ x ∈ flatten e.p, e.t ≤ arr x + c.timeout :=
+  C17_timeout logsBatch flatten logs_laws logs_fifo c hv arr key T0 tEnd ls hw
+
+theorem C17_timeout_metrics (c : Cfg) (hv : c.valid) (arr : MCtx → Nat) (key : Key) (T0 tEnd : Nat) (ls : List (Label (List MRes)))
+    (hw : WellTimed metricsBatch c mflatten arr tEnd T0 { key := key, data := [], cnt := 0, deadline := T0 + c.timeout } ls) :
+    ∀ e ∈ (Shard.run metricsBatch c { key := key, data := [], cnt := 0, deadline := T0 + c.timeout } ls).2 ++
+        ((Shard.run metricsBatch c { key := key, data := [], cnt := 0, deadline := T0 + c.timeout } ls).1.shutdown metricsBatch c tEnd).2,
+      ∀ x ∈ mflatten e.p, e.t ≤ arr x + c.timeout :=
+  C17_timeout metricsBatch mflatten metrics_laws metrics_fifo c hv arr key T0 tEnd ls hw
+
+/-- non-vacuity of `WellTimed`: 5 records at t=7 (two batches at once, one record waits), timer at t=100, 2 records at
+t=150, shutdown at t=180 — every record leaves within 100 of its arrival -/
+example :
+    WellTimed logsBatch { sbs := 2, max := 2, timeout := 100 } flatten (fun x => if x.2.2.id < 20 then 7 else 150) 180 0
+      { key := [], data := [], cnt := 0, deadline := 100 }
+      [.arrive 7 [⟨⟨1, 0, 0⟩, [⟨⟨2, 0, 0, 0, 0⟩, [⟨10, 0, 1⟩, ⟨11, 0, 1⟩, ⟨12, 0, 1⟩, ⟨13, 0, 1⟩, ⟨14, 0, 1⟩]⟩]⟩], .tick,
+       .arrive 150 [⟨⟨1, 0, 0⟩, [⟨⟨2, 0, 0, 0, 0⟩, [⟨20, 0, 1⟩]⟩]⟩]] := by
+  simp only [WellTimed]
+  refine ⟨by decide, fun _ => by decide, by decide, by decide, by decide, by decide, fun _ => by decide, by decide,
+    by decide, fun _ => by decide⟩
+
 /-- non-vacuity: 5 records, send_batch_size 2, max 2: two batches at once, one record waits for the timer -/
 example :
     let c : Cfg := { sbs := 2, max := 2, timeout := 100 }
@@ -351,5 +493,217 @@ example :
     let p : List Res := [⟨⟨1, 0, 0⟩, [⟨⟨2, 0, 0, 0, 0⟩, [⟨10, 0, 1⟩, ⟨11, 0, 1⟩, ⟨12, 0, 1⟩, ⟨13, 0, 1⟩, ⟨14, 0, 1⟩]⟩]⟩]
     let r := Shard.run logsBatch c s0 [.arrive 7 p, .tick]
     r.2.map (fun e => (e.t, (flatten e.p).map (·.2.2.id))) = [(7, [10, 11]), (7, [12, 13]), (107, [14])] := by decide
+
+
+/-! ## the whole processor: sharder + all shards, every sequence of operations -/
+
+/-- an operation on the processor: a `Consume` call with its client-metadata group, or virtual time passing (every timer
+that comes due fires) -/
+inductive POp (P : Type) where
+  | arrive (key : Key) (p : P)
+  | advance (dt : Nat)
+
+/-- final processor, everything emitted, and the flattening of everything that was ACCEPTED (a refused arrival is not) -/
+def Proc.runOps {P β : Type} (o : BatchOps P) (c : Cfg) (flat : P → List β) : Proc P → List (POp P) → Proc P × List (Emit P) × List β
+  | pr, [] => (pr, [], [])
+  | pr, .arrive key p :: ops =>
+    match pr.arrive o c key p with
+    | some (pr', es) =>
+      let r := Proc.runOps o c flat pr' ops
+      (r.1, es ++ r.2.1, flat p ++ r.2.2)
+    | none => Proc.runOps o c flat pr ops
+  | pr, .advance dt :: ops =>
+    let a := pr.advance o c dt
+    let r := Proc.runOps o c flat a.1 ops
+    (r.1, a.2 ++ r.2.1, r.2.2)
+
+theorem arrive_proc {P β : Type} (o : BatchOps P) (flat : P → List β) (hl : BatchLaws o flat) (c : Cfg) (pr pr' : Proc P)
+    (key : Key) (p : P) (es : List (Emit P)) (h : pr.arrive o c key p = some (pr', es)) (hp : PInv o c pr.shards) :
+    PInv o c pr'.shards ∧ (flatEmits flat es ++ dataFlat flat pr'.shards).Perm (dataFlat flat pr.shards ++ flat p) ∧
+    (c.max > 0 → ∀ e ∈ es, o.count e.p ≤ c.max) := by
+  simp only [Proc.arrive] at h
+  split at h
+  · next s hf =>
+    injection h with h
+    have hm : s ∈ pr.shards := List.mem_of_find?_eq_some hf
+    have ps := process_spec o flat hl c pr.now s p (hp.1 s hm).1
+    have st : ShardStep o c flat s (s.process o c pr.now p).1 (s.process o c pr.now p).2 (flat p) :=
+      ⟨ps.1, ps.2.2.2.1, ps.2.1, ps.2.2.1, fun e he => (ps.2.2.2.2 e he).1⟩
+    have := lift_step o c flat pr.shards s _ _ (flat p) hp hm st
+    have h1 : pr'.shards = replaceShard (s.process o c pr.now p).1 pr.shards := by
+      have := congrArg Prod.fst h; simp at this; rw [← this]
+    have h2 : es = (s.process o c pr.now p).2 := by
+      have := congrArg Prod.snd h; simpa using this.symm
+    rw [h1, h2]
+    exact ⟨this.1, this.2, ps.2.2.1⟩
+  · next hf =>
+    split at h
+    · cases h
+    · injection h with h
+      have ps := process_spec o flat hl c pr.now { key := key, data := o.empty, cnt := 0, deadline := pr.now + c.timeout } p
+        (by simp [Shard.ok, hl.count_eq, hl.empty])
+      have h1 : pr'.shards = pr.shards ++ [(Shard.process o c pr.now { key := key, data := o.empty, cnt := 0, deadline := pr.now + c.timeout } p).1] := by
+        have := congrArg Prod.fst h; simp at this; rw [← this]
+      have h2 : es = (Shard.process o c pr.now { key := key, data := o.empty, cnt := 0, deadline := pr.now + c.timeout } p).2 := by
+        have := congrArg Prod.snd h; simpa using this.symm
+      rw [h1, h2]
+      refine ⟨⟨?_, ?_⟩, ?_, ps.2.2.1⟩
+      · intro t ht
+        rcases List.mem_append.mp ht with h' | h'
+        · exact hp.1 t h'
+        · simp only [List.mem_singleton] at h'; rw [h']; exact ps.1
+      · simp only [List.map_append, List.map_cons, List.map_nil]
+        rw [List.nodup_append]
+        refine ⟨hp.2, by simp, ?_⟩
+        intro a ha b hb
+        simp only [List.mem_singleton] at hb
+        subst hb
+        rw [ps.2.2.2.1]
+        simp only [List.mem_map] at ha
+        obtain ⟨t, htm, rfl⟩ := ha
+        intro hk
+        have := List.find?_eq_none.mp hf t htm
+        simp [hk] at this
+      · have := ps.2.1
+        simp only [hl.empty, List.nil_append] at this
+        simp only [dataFlat, List.flatMap_append, List.flatMap_cons, List.flatMap_nil, List.append_nil]
+        refine (List.perm_append_comm.trans ?_)
+        rw [List.append_assoc]
+        exact List.Perm.append_left _ (List.perm_append_comm.trans this)
+
+theorem go_proc {P β : Type} (o : BatchOps P) (flat : P → List β) (hl : BatchLaws o flat) (c : Cfg) (hv : c.valid) (target : Nat) :
+    ∀ (fuel : Nat) (ss : List (Shard P)) (acc : List (Emit P)), PInv o c ss →
+      PInv o c (Proc.advance.go o c target fuel ss acc).1 ∧
+      (flatEmits flat (Proc.advance.go o c target fuel ss acc).2 ++ dataFlat flat (Proc.advance.go o c target fuel ss acc).1).Perm
+        (flatEmits flat acc ++ dataFlat flat ss) ∧
+      (c.max > 0 → (∀ e ∈ acc, o.count e.p ≤ c.max) → ∀ e ∈ (Proc.advance.go o c target fuel ss acc).2, o.count e.p ≤ c.max) := by
+  intro fuel
+  induction fuel with
+  | zero => intro ss acc hp; exact ⟨hp, List.Perm.refl _, fun _ h => h⟩
+  | succ n ih =>
+    intro ss acc hp
+    simp only [Proc.advance.go]
+    split
+    · exact ⟨hp, List.Perm.refl _, fun _ h => h⟩
+    · next s hf =>
+      have hm : s ∈ ss := List.mem_of_find?_eq_some hf
+      have ts := tick_spec o flat hl c hv s (hp.1 s hm)
+      have st : ShardStep o c flat s (s.tick o c).1 (s.tick o c).2 [] :=
+        ⟨ts.1, ts.2.2.2.2.1, by simpa using ts.2.2.1, ts.2.2.2.1, fun e he => (ts.2.2.2.2.2 e he).1⟩
+      have lf := lift_step o c flat ss s _ _ [] hp hm st
+      have := ih (replaceShard (s.tick o c).1 ss) (acc ++ (s.tick o c).2) lf.1
+      refine ⟨this.1, ?_, ?_⟩
+      · refine this.2.1.trans ?_
+        simp only [flatEmits, List.flatMap_append, List.append_assoc] at lf ⊢
+        exact List.Perm.append_left _ (by simpa using lf.2)
+      · intro hm' hacc
+        apply this.2.2 hm'
+        intro e he
+        rcases List.mem_append.mp he with h | h
+        · exact hacc e h
+        · exact ts.2.2.2.1 hm' e h
+
+theorem advance_proc {P β : Type} (o : BatchOps P) (flat : P → List β) (hl : BatchLaws o flat) (c : Cfg) (hv : c.valid)
+    (pr : Proc P) (dt : Nat) (hp : PInv o c pr.shards) :
+    PInv o c (pr.advance o c dt).1.shards ∧
+    (flatEmits flat (pr.advance o c dt).2 ++ dataFlat flat (pr.advance o c dt).1.shards).Perm (dataFlat flat pr.shards) ∧
+    (c.max > 0 → ∀ e ∈ (pr.advance o c dt).2, o.count e.p ≤ c.max) := by
+  simp only [Proc.advance]
+  split
+  · exact ⟨hp, by simp [flatEmits], fun _ e he => by simp at he⟩
+  · have := go_proc o flat hl c hv (pr.now + dt) ((dt / c.timeout + 2) * (pr.shards.length + 1)) pr.shards [] hp
+    exact ⟨this.1, by simpa [flatEmits] using this.2.1, fun hm => this.2.2 hm (by simp)⟩
+
+theorem shutdown_proc {P β : Type} (o : BatchOps P) (flat : P → List β) (hl : BatchLaws o flat) (c : Cfg) (hv : c.valid)
+    (now : Nat) : ∀ (shards : List (Shard P)), (∀ s ∈ shards, s.ok o ∧ due c s = false) →
+      (flatEmits flat ((shards.map (fun s => s.shutdown o c now)).flatMap (·.2))).Perm (dataFlat flat shards) ∧
+      (c.max > 0 → ∀ e ∈ (shards.map (fun s => s.shutdown o c now)).flatMap (·.2), o.count e.p ≤ c.max) := by
+  intro shards
+  induction shards with
+  | nil => intro _; simp [flatEmits, dataFlat]
+  | cons a l ih =>
+    intro h
+    have sa := shutdown_spec o flat hl c hv now a (h a (by simp))
+    have sl := ih (fun s hs => h s (by simp [hs]))
+    refine ⟨?_, ?_⟩
+    · simp only [List.map_cons, List.flatMap_cons, flatEmits, List.flatMap_append, dataFlat] at sa sl ⊢
+      exact List.Perm.append sa.1 sl.1
+    · intro hm e he
+      simp only [List.map_cons, List.flatMap_cons, List.mem_append] at he
+      rcases he with h' | h'
+      · exact sa.2.1 hm e h'
+      · exact sl.2 hm e h'
+
+theorem runOps_spec {P β : Type} (o : BatchOps P) (flat : P → List β) (hl : BatchLaws o flat) (c : Cfg) (hv : c.valid) :
+    ∀ (ops : List (POp P)) (pr : Proc P), PInv o c pr.shards →
+      PInv o c (Proc.runOps o c flat pr ops).1.shards ∧
+      (flatEmits flat (Proc.runOps o c flat pr ops).2.1 ++ dataFlat flat (Proc.runOps o c flat pr ops).1.shards).Perm
+        (dataFlat flat pr.shards ++ (Proc.runOps o c flat pr ops).2.2) ∧
+      (c.max > 0 → ∀ e ∈ (Proc.runOps o c flat pr ops).2.1, o.count e.p ≤ c.max) := by
+  intro ops
+  induction ops with
+  | nil => intro pr hp; exact ⟨hp, by simp [Proc.runOps, flatEmits], fun _ e he => by simp [Proc.runOps] at he⟩
+  | cons op ops ih =>
+    intro pr hp
+    cases op with
+    | arrive key p =>
+      simp only [Proc.runOps]
+      cases ha : pr.arrive o c key p with
+      | none => exact ih pr hp
+      | some x =>
+        obtain ⟨pr', es⟩ := x
+        have a := arrive_proc o flat hl c pr pr' key p es ha hp
+        have r := ih pr' a.1
+        refine ⟨r.1, ?_, ?_⟩
+        · simp only [flatEmits, List.flatMap_append, List.append_assoc] at r a ⊢
+          refine (List.Perm.append_left _ r.2.1).trans ?_
+          rw [← List.append_assoc, ← List.append_assoc]
+          exact List.Perm.append_right _ (by simpa [List.append_assoc] using a.2.1)
+        · intro hm e he
+          rcases List.mem_append.mp he with h | h
+          · exact a.2.2 hm e h
+          · exact r.2.2 hm e h
+    | advance dt =>
+      simp only [Proc.runOps]
+      have a := advance_proc o flat hl c hv pr dt hp
+      have r := ih (pr.advance o c dt).1 a.1
+      refine ⟨r.1, ?_, ?_⟩
+      · simp only [flatEmits, List.flatMap_append, List.append_assoc] at r a ⊢
+        refine (List.Perm.append_left _ r.2.1).trans ?_
+        rw [← List.append_assoc]
+        exact List.Perm.append_right _ a.2.1
+      · intro hm e he
+        rcases List.mem_append.mp he with h | h
+        · exact a.2.2 hm e h
+        · exact r.2.2 hm e h
+
+/-- **the whole processor, exactly once and bounded**: for every validated configuration (any number of metadata keys, any
+cardinality limit), every sequence of `Consume` calls with arbitrary metadata groups and of time steps (all due timers
+fire), and shutdown at the end: what was emitted downstream by the time shutdown returns is exactly — as a multiset with
+full context — what was ACCEPTED (refused arrivals excluded); and no batch exceeds `send_batch_max_size` -/
+theorem C17_proc_exactly_once {P β : Type} (o : BatchOps P) (flat : P → List β) (hl : BatchLaws o flat) (c : Cfg) (hv : c.valid)
+    (ops : List (POp P)) :
+    let r := Proc.runOps o c flat (Proc.init o c) ops
+    let sh := r.1.shutdown o c
+    (flatEmits flat (r.2.1 ++ sh.2)).Perm r.2.2 ∧ (c.max > 0 → ∀ e ∈ r.2.1 ++ sh.2, o.count e.p ≤ c.max) := by
+  intro r sh
+  have hp0 : PInv o c (Proc.init o c).shards := by
+    simp only [Proc.init]
+    split
+    · exact ⟨by intro s hs; simp only [List.mem_singleton] at hs; subst hs; simp [Shard.ok, hl.count_eq, hl.empty, due], by simp⟩
+    · exact ⟨by intro s hs; simp at hs, by simp⟩
+  have hd0 : dataFlat flat (Proc.init o c).shards = [] := by
+    simp only [Proc.init]; split <;> simp [dataFlat, hl.empty]
+  have hr := runOps_spec o flat hl c hv ops (Proc.init o c) hp0
+  have hs := shutdown_proc o flat hl c hv r.1.now r.1.shards hr.1.1
+  refine ⟨?_, ?_⟩
+  · have h1 := hr.2.1
+    rw [hd0, List.nil_append] at h1
+    simp only [flatEmits, List.flatMap_append] at h1 hs ⊢
+    exact (List.Perm.append_left _ hs.1).trans h1
+  · intro hm e he
+    rcases List.mem_append.mp he with h | h
+    · exact hr.2.2 hm e h
+    · exact hs.2 hm e h
 
 end OtelVerif.C17
